@@ -2,6 +2,7 @@ package main
 
 import (
 	"fmt"
+	"go/constant"
 	"go/token"
 	"go/types"
 	"sort"
@@ -706,5 +707,40 @@ func ruleDCGPairLast(c *Ctx, r *Report) {
 	}
 	if n == 0 {
 		r.undecided(rule, "scan/goals-with-pair", "-", desc, "no goal built from the list pair found")
+	}
+}
+
+// ---------------------------------------------------------------------------
+// R-PHRASE-NO-PREFILTER (C17; added after seed C17j): phrase/3 is the call of the translated body with the two
+// lists - nothing else decides its truth. The Go function registered for it (and its closures) never produces a
+// plain failure of its own: no call of Bool with the constant false. What the lists may look like afterwards
+// depends on the grammar (a push-back rule leaves a remainder LONGER than the input); a guard that "knows" the
+// remainder is a suffix refuses true goals.
+func rulePhraseNoPrefilter(c *Ctx, r *Report) {
+	const rule = "R-PHRASE-NO-PREFILTER"
+	desc := "phrase/3 never fails by a test of its own: it errors or calls the translated body"
+	fn := c.registeredFn("phrase", 3)
+	boolFn := c.fn("Bool")
+	if fn == nil || boolFn == nil {
+		r.undecided(rule, "anchor:phrase/3", "-", desc, "not registered")
+		return
+	}
+	var bad ssa.Instruction
+	for _, g := range withAnon(fn) {
+		eachInstr(g, func(in ssa.Instruction) {
+			call, ok := in.(*ssa.Call)
+			if !ok || call.Call.StaticCallee() != boolFn || len(call.Call.Args) != 1 {
+				return
+			}
+			if k, ok := call.Call.Args[0].(*ssa.Const); ok && k.Value != nil && !constant.BoolVal(k.Value) {
+				bad = in
+			}
+		})
+	}
+	key := fname(fn) + "/own-failure"
+	if bad != nil {
+		r.bad(rule, key, c.at(bad), desc, "phrase/3 fails here without asking the grammar: what it assumes about the two lists (the remainder is no longer than the input) is false for a rule with push-back")
+	} else {
+		r.ok(rule, key, c.Pos(fn.Pos()), desc, "no Bool(false) in the function or its closures", true)
 	}
 }
